@@ -483,7 +483,7 @@ int main (int argc, char **argv)
           else
             offset = 0;
 
-          if (zero && k * fields[i].spf + j >= fields[i].n_read) {
+          if (zero && k * fields[i].spf + prev_samp >= fields[i].n_read) {
             printf("%s", zero);
           } else if (type_data[fields[i].type].t == READ_AS_DOUBLE) {
             slope = (fields[i].u.dbl[k * fields[i].spf + next_samp - offset] -
